@@ -40,7 +40,7 @@ Definition apply_dop (d : dbgr) (o : dop) : dbgr :=
   | DSet bp => set_breakpoint N N.eqb unit d bp
   | DRemove bp => remove_breakpoint N N.eqb unit d bp
   | DClear => clear_breakpoints N unit d
-  | DAbandoned bp => set_last_state N unit d (PRunProgram N unit (DBreakpoint N bp))
+  | DAbandoned bp => set_last_state N unit d (PRunProgram N unit (DBreakpoint N bp))   (* forgotten by the next transact *)
   end.
 
 Definition m_drive (d : dbgr) (t : tape) : list (event N tape) * option unit :=
@@ -74,6 +74,7 @@ Example run_selftest :
                  dc_runs := [ {| dr_ops := [DSet (1,0)]; dr_events := [(1,0); (1,0); (1,0)] |};
                               {| dr_ops := [DSingle true]; dr_events := [(0,0); (1,0); (1,4); (1,0); (1,4); (1,0); (1,4); (0,4)] |};
                               {| dr_ops := [DSet (0,0); DSet (0,4); DRemove (0,0); DAbandoned (0,0)]; dr_events := [(0,4)] |};
-                              {| dr_ops := [DSet (0,0); DAbandoned (0,0)]; dr_events := [] |};
+                              {| dr_ops := [DAbandoned (0,0); DSet (0,0); DSet (1,4)]; dr_events := [(0,0); (1,4); (1,4); (1,4)] |};
+                              {| dr_ops := [DSet (0,0); DAbandoned (0,0)]; dr_events := [(0,0)] |};
                               {| dr_ops := []; dr_events := [] |} ] |} = true.
 Proof. vm_compute. reflexivity. Qed.
